@@ -123,7 +123,11 @@ func genWindowOps(rng *rand.Rand, c *Case, unit, ooo int64, allowLate bool, keys
 	c.Ops = append(c.Ops, []string{"drain"}, []string{"tick"}, []string{"drain"})
 }
 
-func (c01) Gen(rng *rand.Rand, tier string, idx int) Case {
+func (p c01) Gen(rng *rand.Rand, tier string, idx int) Case {
+	return maybeReset(rng, p.gen0(rng, tier, idx))
+}
+
+func (c01) gen0(rng *rand.Rand, tier string, idx int) Case {
 	var c Case
 	sizes := []int64{10, 1000, 7, 1, 3_600_000_000_000}
 	size := sizes[rng.Intn(len(sizes))]
